@@ -1,5 +1,6 @@
 import Supv.Lemmas.InstRun
 import Supv.Spec.Graphs
+import Supv.Props.C16
 
 /-!
 # C07 — Silent instances are detected in bounded time, live ones never declared lost
@@ -66,5 +67,12 @@ def exCfg : Cfg :=
     failStrat := .cont }
 example : AccOk exCfg 1 { peers := [({} : Peer), ({ state := .running, localCounter := 7 } : Peer)], modes := [] } (.ltick 9) := by
   simp [AccOk, exCfg]
+
+/-- **C07, who marks an instance FAILED / STOPPED / ISOLATED and when** (regenerated from the current `context.py` by the
+    translator, G6): the hand-written model changes the state of an instance at exactly the sites of the source, under exactly
+    the guards of the source - in particular a peer is declared FAILED from every active state (CHECKING included) on
+    inactivity or on a proxy failure, and invalidated only from FAILED (or refused during CHECKING). -/
+theorem C07_model_writers_match_source : Supv.Gen.instStateWriters = Supv.Props.C16.modelWriters :=
+  Supv.Props.C16.C16_model_writers_match_source
 
 end Supv.Props.C07
